@@ -23,7 +23,7 @@ T == Traces[tid]
 Abs(x) == IF x < 0 THEN -x ELSE x
 SeqSet(s) == {s[i] : i \in 1..Len(s)}
 
-Init == /\ tid \in 1..Len(Traces) /\ l = 1 /\ prev = [ds |-> <<>>, ws |-> <<>>] /\ sumSim = 0
+Init == /\ tid \in 1..Len(Traces) /\ l = 1 /\ prev = [ds |-> <<>>, ws |-> <<>>, cov |-> <<>>] /\ sumSim = 0
         /\ verdict = "ok" /\ drift = "" /\ done = FALSE
 
 \* thr is a weighted alpha-quantile of (xs, ws) up to the rounding of the logged weights
@@ -36,7 +36,10 @@ IsWQSlack(xs, ws, a, A, q) ==
      /\ WLt(xs, ws, q) * A <= a * W + slack
 
 JudgeP(e, i) ==
-  IF e.ev = "end" THEN (IF e.raised # "" THEN "P:sampler-returns" ELSE IF e.nsim # sumSim THEN "P:n_sim-is-total-over-all-rounds" ELSE "ok")
+  \* a population whose weighted variance vanishes in some dimension (to the 1e-4 of the log) has no Gaussian-mixture
+  \* proposal: the weight formula of the statement is undefined there, and scipy's refusal (LinAlgError) is not a failure
+  IF e.ev = "end" /\ e.raised # "" /\ e.rtype = "LinAlgError" /\ \E k \in 1..Len(prev.cov) : prev.cov[k] <= 0 THEN "ok"
+  ELSE IF e.ev = "end" THEN (IF e.raised # "" THEN "P:sampler-returns" ELSE IF e.nsim # sumSim THEN "P:n_sim-is-total-over-all-rounds" ELSE "ok")
   ELSE IF \E k \in 1..Len(e.sizes) : e.sizes[k] # T.n THEN "P:population-has-n_samples-particles"
   ELSE IF Len(e.ds) # T.n \/ Len(e.ws) # T.n THEN "P:population-has-n_samples-particles"
   ELSE IF e.kind = "u" /\ \E k \in 1..T.n : e.ds[k] > e.thr_user THEN "P:discrepancies-within-user-threshold"
@@ -54,7 +57,7 @@ Step == /\ ~done
         /\ IF l > Len(T.events) THEN done' = TRUE /\ UNCHANGED <<tid, l, prev, sumSim, verdict, drift>>
            ELSE LET e == T.events[l] j == JudgeP(e, l) IN
                 /\ verdict' = j /\ done' = (j # "ok") /\ l' = l + 1 /\ UNCHANGED <<tid, drift>>
-                /\ IF e.ev = "pop" THEN prev' = [ds |-> e.ds, ws |-> e.ws] /\ sumSim' = sumSim + e.nsim
+                /\ IF e.ev = "pop" THEN prev' = [ds |-> e.ds, ws |-> e.ws, cov |-> e.cov] /\ sumSim' = sumSim + e.nsim
                    ELSE UNCHANGED <<prev, sumSim>>
 Spec == Init /\ [][Step]_vars
 Report == done => PrintT(<<"V", tid, l, verdict, drift>>)
